@@ -252,7 +252,7 @@ def run(P, R):
                     'eval() interpolates `%s` without the whitelist fact `in [all, any]` on an ast.Name' % a_txt)
             v = parts[1].value
             vdefs = [a for a in own_nodes(ev.node) if isinstance(a, ast.Assign) and ast.unparse(a.targets[0]) == ast.unparse(v)
-                     and a.lineno < c.lineno and fm.has(a, 'type(node) is ast.Call', True)]
+                     and (a.lineno, a.col_offset) < (c.lineno, c.col_offset) and fm.has(a, 'type(node) is ast.Call', True)]
             okv = bool(vdefs) and all(ast.unparse(a.value) in ('self.evaluate(node.args[0])', '[%s]' % ast.unparse(v))
                                       for a in vdefs)
             R.check(r4, okv, 'the interpolated value is the evaluation of the single argument', 'sink|value', ev.loc(c),
@@ -331,7 +331,11 @@ def run(P, R):
     fmr = factmap(ur)
     crash = ('process.displayed_state in [ProcessStates.FATAL, ProcessStates.UNKNOWN] or (process.displayed_state == '
              'ProcessStates.EXITED and (not process.expected_exit))', True)
-    mj = [a for a in own_nodes(ur.node) if isinstance(a, ast.Assign) and ast.unparse(a.targets[0]) == 'self.major_failure']
+    mj_all = [a for a in own_nodes(ur.node) if isinstance(a, ast.Assign) and ast.unparse(a.targets[0]) == 'self.major_failure']
+    # (the confirmation of a possible major failure may be written `if possible and state != STOPPED: major = True`)
+    CONFIRM = {('possible_major_failure', True), ('self.state == ApplicationStates.STOPPED', False)}
+    confirm_assign = [a for a in mj_all if {tuple(f) for f in fmr.at(a)} == CONFIRM and ast.unparse(a.value) == 'True']
+    mj = [a for a in mj_all if a not in confirm_assign]
     ok = len(mj) == 1 and {tuple(f) for f in fmr.at(mj[0])} == {crash, ('process.rules.required', True)}
     R.check(r6, ok, 'a crashed required process is a major failure', 'status|major', ur.loc(),
             'update_status_required sets major_failure under %s' % [sorted(tuple(f) for f in fmr.at(a)) for a in mj])
@@ -352,9 +356,11 @@ def run(P, R):
     R.check(r6, ok, 'a required STOPPED process is a possible major failure', 'status|possible', ur.loc(),
             'possible_major_failure is set under %s' % [sorted(tuple(f) for f in fmr.at(a)) for a in pm])
     cf = [a for a in own_nodes(ur.node) if isinstance(a, ast.AugAssign) and ast.unparse(a.target) == 'self.major_failure']
-    ok = len(cf) == 1 and isinstance(cf[0].op, ast.BitOr) and ast.unparse(cf[0].value) == 'possible_major_failure' and \
+    ok = len(cf) == 1 and not confirm_assign and isinstance(cf[0].op, ast.BitOr) and \
+        ast.unparse(cf[0].value) == 'possible_major_failure' and \
         {tuple(f) for f in fmr.at(cf[0])} == {('self.state == ApplicationStates.STOPPED', False),
                                                ('self.state == ApplicationStates.STOPPED', False)}
+    ok = ok or (not cf and len(confirm_assign) == 1)
     R.check(r6, ok, 'confirmed exactly when the application is not STOPPED', 'status|confirm', ur.loc(),
             'the possible major failure is confirmed under %s (expected `self.state != STOPPED`)' %
             [sorted(tuple(f) for f in fmr.at(a)) for a in cf])
